@@ -19,6 +19,7 @@ package msqrtInv
 /* -------------------------------------------------------------------------- */
 
 //import   "fmt"
+import "github.com/pbenner/autodiff/verifhook"
 import   "errors"
 
 import . "github.com/pbenner/autodiff"
@@ -47,6 +48,7 @@ func mSqrtInv(matrix Matrix) (Matrix, error) {
   X1 := NullDenseMatrix(matrix.ElementType(), n, n)
   X1.MmulS(S1.MdotM(X0, t), c)
   for t1.Mnorm(S1.MsubM(X0, X1)).GetFloat64() > 1e-8 {
+    verifhook.Tick("msqrtInv.iter")
     X0, X1 = X1, X0
     t, err := matrixInverse.Run(S1.MaddM(I, S2.MdotM(A, S1.MdotM(X0, X0))))
     if err != nil {
